@@ -822,7 +822,7 @@ def mutate_s1(rng, a):
 class C15(Prop):
     id = "C15"
     title = "request IDs and service-1 reports"
-    lean_modules = ["SpVerif.Props.C15"]
+    lean_modules = ["SpVerif.Props.C15", "SpVerif.Props.C11Heap"]
     exhaustive_note = ("all 65536 values of each request-ID word through unpack/pack; all 8 subservices x 16 width pairs x "
                        "timestamp lengths 0..12 (constructor and create_* helpers); all pfc 0..80 through check_pfc; all "
                        "(subservice 0..12 x 4 parameter shapes) through verify_against_subservice; every truncation of sampled reports")
